@@ -63,27 +63,35 @@ package rapid
 //@   ensures [C03] implies(p >= 1.0/17.0, result <= 630)
 //@   ensures drawn == old(drawn) + 1
 //@   panics invalidData: drawn == old(drawn)
-//@   modifies drawn
+//@   modifies drawn, lastWord
 
 //@ func genUintNNoReject
 //@   ensures [C03] result <= max
 //@   ensures drawn > old(drawn)
 //@   panics invalidData: drawn >= old(drawn)
-//@   modifies drawn
+//@   modifies drawn, lastWord
 
 //@ func genUintNUnbiased
 //@   ensures [C03] result <= max
+//   Replay discipline (C04, C01): a rejected draw is discarded, the accepted one is kept and is the result.
+//@   ensures [C01,C04] result == lastWord
+//@   at s.endGroup#0 assert [C01,C04] arg0 == i && arg1 == (u > max)
 //@   ensures drawn > old(drawn)
 //@   panics invalidData: drawn >= old(drawn)
-//@   modifies drawn
+//@   modifies drawn, lastWord
 //@   loop 0 invariant drawn >= old(drawn)
 
 //@ func genUintNBiased
 //@   ensures [C03] result0 <= max
+//   Replay discipline (C04, C01): the bias group is kept; a draw is discarded iff it is rejected; the result is the
+//   kept word, or max on the overflow path.
+//@   ensures [C01,C04] result0 == lastWord || result0 == max
+//@   at s.endGroup#0 assert [C01,C04] !arg1
+//@   at s.endGroup#1 assert [C01,C04] arg0 == i && arg1 == !(bitlen > 64 || u <= max)
 //@   ensures [C03] implies(result1, result0 == 0) && implies(result2, result0 == max)
 //@   ensures drawn > old(drawn)
 //@   panics invalidData: drawn >= old(drawn)
-//@   modifies drawn
+//@   modifies drawn, lastWord
 //@   loop 0 invariant [C03] 0 <= bitlen && bitlen <= 65 && 1 <= n && n <= 631
 //@   loop 0 invariant drawn > old(drawn)
 
@@ -92,7 +100,7 @@ package rapid
 //@   ensures [C03] implies(result1, result0 == 0) && implies(result2, result0 == max)
 //@   ensures drawn > old(drawn)
 //@   panics invalidData: drawn >= old(drawn)
-//@   modifies drawn
+//@   modifies drawn, lastWord
 
 //@ func genUintRange
 //@   requires [C03] min <= max
@@ -100,7 +108,7 @@ package rapid
 //@   ensures [C03] implies(result1, result0 == min) && implies(result2, result0 == max)
 //@   ensures drawn > old(drawn)
 //@   panics invalidData: drawn >= old(drawn)
-//@   modifies drawn
+//@   modifies drawn, lastWord
 
 //@ func genIntRange
 //@   requires [C03] min <= max
@@ -108,14 +116,14 @@ package rapid
 //@   ensures [C03] implies(result1, result0 == min) && implies(result2, result0 == max)
 //@   ensures drawn > old(drawn)
 //@   panics invalidData: drawn >= old(drawn)
-//@   modifies drawn
+//@   modifies drawn, lastWord
 
 //@ func genIndex
 //@   requires [C03] n > 0
 //@   ensures [C03] 0 <= result && result < n
 //@   ensures drawn > old(drawn)
 //@   panics invalidData: drawn >= old(drawn)
-//@   modifies drawn
+//@   modifies drawn, lastWord
 
 //@ func flipBiasedCoin
 //@   requires [C03] p >= 0 && p <= 1
@@ -150,7 +158,7 @@ package rapid
 //@   ensures [C03] implies(signifBits == 23, ub32(float32(min)) <= compose32(result0, result1, result2) && compose32(result0, result1, result2) <= ub32(float32(max)))
 //@   ensures drawn > old(drawn)
 //@   panics invalidData: drawn >= old(drawn)
-//@   modifies drawn
+//@   modifies drawn, lastWord
 //@   loop 0 invariant [C03] sfMin <= sf && sf <= sfMax
 //@   loop 0 decreases uint(maxR) - uint(r) - i
 
@@ -162,7 +170,7 @@ package rapid
 //@   ensures [C03] implies(signifBits == 23, min <= float64(f32val(result0, result1, result2, result3)) && float64(f32val(result0, result1, result2, result3)) <= max)
 //@   ensures drawn > old(drawn)
 //@   panics invalidData: drawn >= old(drawn)
-//@   modifies drawn
+//@   modifies drawn, lastWord
 
 // ---------------------------------------------------------------------------------------------
 // repeat: collection length control
@@ -277,7 +285,7 @@ package rapid
 //@   immutable g
 //@   ensures [C15] true
 //@   ensures result == g.str
-//@   modifies g.str, g.strOnce
+//@   modifies g.str, g.strOnce, onceDone, onceIn
 
 //@ func (*Generator).value
 //@   immutable g
@@ -288,7 +296,7 @@ package rapid
 //@   ensures [C03] drawn > old(drawn)
 //@   ensures relyUser(t)
 //@   panics any: drawn >= old(drawn) && relyUser(t)
-//@   modifies drawn, t.failed, t.cleanups, elems(t.cleanups), t.ctx, t.cancelCtx, t.draws, stream(t.s)
+//@   modifies drawn, t.failed, t.cleanups, elems(t.cleanups), t.ctx, t.cancelCtx, t.draws, stream(t.s), onceDone, onceIn
 
 // ---------------------------------------------------------------------------------------------
 // collections.go
@@ -305,8 +313,8 @@ package rapid
 //@   requires [C03] g.minLen < 1<<52
 //@   ensures [C03] lenOK(len(result), g.minLen, g.maxLen)
 //@   panics any: true
-//@   modifies drawn, t.failed, t.cleanups, elems(t.cleanups), t.ctx, t.cancelCtx, t.draws, g.elem.str, g.elem.strOnce
-//@   loop 0 invariant [C03] len(sl) == repeat.count && repeatInv(repeat) && groupUsed(repeat)
+//@   modifies drawn, t.failed, t.cleanups, elems(t.cleanups), t.ctx, t.cancelCtx, t.draws, g.elem.str, g.elem.strOnce, lastWord, onceDone, onceIn
+//@   loop 0 invariant [C01,C03,C04] len(sl) == repeat.count && repeatInv(repeat) && groupUsed(repeat)
 //@   loop 0 invariant [C03] repeat.minCount == minOf(g.minLen) && repeat.maxCount == maxOf(g.maxLen)
 
 //@ func (*mapGen).value
@@ -318,8 +326,8 @@ package rapid
 //@   requires [C03] g.minLen < 1<<52
 //@   ensures [C03] lenOK(len(result), g.minLen, g.maxLen)
 //@   panics any: true
-//@   modifies drawn, t.failed, t.cleanups, elems(t.cleanups), t.ctx, t.cancelCtx, t.draws, g.val.str, g.val.strOnce, g.key.str, g.key.strOnce
-//@   loop 0 invariant [C03] len(m) == repeat.count && repeatInv(repeat) && groupUsed(repeat)
+//@   modifies drawn, t.failed, t.cleanups, elems(t.cleanups), t.ctx, t.cancelCtx, t.draws, g.val.str, g.val.strOnce, g.key.str, g.key.strOnce, lastWord, onceDone, onceIn
+//@   loop 0 invariant [C01,C03,C04] len(m) == repeat.count && repeatInv(repeat) && groupUsed(repeat)
 //@   loop 0 invariant [C03] repeat.minCount == minOf(g.minLen) && repeat.maxCount == maxOf(g.maxLen)
 
 // ---------------------------------------------------------------------------------------------
@@ -332,13 +340,15 @@ package rapid
 //@   modifies drawn, t.failed, t.cleanups, t.ctx, t.cancelCtx, t.draws, stream(t.s)
 //@   loop 0 invariant [C03] 0 <= n && n <= tries
 //@   loop 0 decreases tries - n
+//   Replay discipline (C04, C01): the group of a try is closed as discarded iff the try failed.
+//@   at t.s.endGroup#0 assert [C01,C04] arg0 == i && arg1 == !ok
 
 //@ func (*sampledGen).value
 //@   immutable g
 //@   ensures [C15] true
 //@   requires [C03] len(g.slice) > 0
 //@   panics invalidData: true
-//@   modifies drawn
+//@   modifies drawn, lastWord
 
 //@ func (*oneOfGen).value
 //@   immutable g
@@ -346,7 +356,7 @@ package rapid
 //@   noframe "runs element generators, which may run user code"
 //@   requires [C03] len(g.gens) > 0
 //@   panics any: true
-//@   modifies drawn, t.failed, t.cleanups, elems(t.cleanups), t.ctx, t.cancelCtx, t.draws
+//@   modifies drawn, t.failed, t.cleanups, elems(t.cleanups), t.ctx, t.cancelCtx, t.draws, onceDone, onceIn, lastWord
 
 //@ func (*ptrGen).value
 //@   immutable g
@@ -354,28 +364,28 @@ package rapid
 //@   noframe "runs element generators, which may run user code"
 //@   ensures [C03] implies(!g.allowNil, result != nil)
 //@   panics any: true
-//@   modifies drawn, t.failed, t.cleanups, elems(t.cleanups), t.ctx, t.cancelCtx, t.draws
+//@   modifies drawn, t.failed, t.cleanups, elems(t.cleanups), t.ctx, t.cancelCtx, t.draws, lastWord, onceDone, onceIn
 
 //@ func (*permGen).value
 //@   immutable g
 //@   ensures [C15] true
 //@   ensures [C03] len(result) == len(g.slice)
 //@   panics invalidData: true
-//@   modifies drawn
+//@   modifies drawn, lastWord
 //@   loop 0 invariant [C03] repeatInv(repeat) && groupUsed(repeat) && i == repeat.count && repeat.maxCount == ite(n - 1 < 0, 0, n - 1) && len(s) == n && n == len(g.slice)
 
 //@ func (*boolGen).value
 //@   immutable g
 //@   ensures [C15] true
 //@   panics invalidData: true
-//@   modifies drawn
+//@   modifies drawn, lastWord
 
 //@ func (*integerGen).value
 //@   immutable g
 //@   ensures [C15] true
 //@   requires [C03] implies(g.signed, g.smin <= g.smax) && implies(!g.signed, g.umin <= g.umax)
 //@   panics invalidData: true
-//@   modifies drawn
+//@   modifies drawn, lastWord
 
 //@ func (*float64Gen).value
 //@   immutable g
@@ -383,7 +393,7 @@ package rapid
 //@   requires [C03] g.min <= g.max
 //@   ensures [C03] g.min <= result && result <= g.max
 //@   panics invalidData: true
-//@   modifies drawn
+//@   modifies drawn, lastWord
 
 //@ func (*float32Gen).value
 //@   immutable g
@@ -391,7 +401,7 @@ package rapid
 //@   requires [C03] g.min <= g.max && exact32(g.min) && exact32(g.max)
 //@   ensures [C03] g.min <= float64(result) && float64(result) <= g.max
 //@   panics invalidData: true
-//@   modifies drawn
+//@   modifies drawn, lastWord
 
 // ---------------------------------------------------------------------------------------------
 // strings.go
@@ -405,10 +415,10 @@ package rapid
 //@   ensures [C03] implies(g.maxLen >= 0, len(result) <= g.maxLen)
 //@   ensures [C03] minOf(g.minRunes) <= runesWritten - old(runesWritten) && runesWritten - old(runesWritten) <= maxOf(g.maxRunes)
 //@   panics any: true
-//@   modifies drawn, runesWritten, t.failed, t.cleanups, elems(t.cleanups), t.ctx, t.cancelCtx, t.draws, g.elem.str, g.elem.strOnce
+//@   modifies drawn, runesWritten, t.failed, t.cleanups, elems(t.cleanups), t.ctx, t.cancelCtx, t.draws, g.elem.str, g.elem.strOnce, lastWord, onceDone, onceIn
 //@   loop 0 invariant [C03] repeatInv(repeat) && groupUsed(repeat) && len(b.buf) <= maxLen
 //@   loop 0 invariant [C03] repeat.minCount == minOf(g.minRunes) && repeat.maxCount == maxOf(g.maxRunes) && maxLen == maxOf(g.maxLen)
-//@   loop 0 invariant [C03] runesWritten - old(runesWritten) == repeat.count
+//@   loop 0 invariant [C01,C03,C04] runesWritten - old(runesWritten) == repeat.count
 
 // ---------------------------------------------------------------------------------------------
 // data.go: the two stream implementations, proved against concrete contracts that refine the
@@ -563,7 +573,7 @@ package rapid
 //@   ensures [C10,C14] implies(old(t.ctx) != nil, result == old(t.ctx) && t.ctx == old(t.ctx) && t.cancelCtx == old(t.cancelCtx))
 //@   ensures [C10,C14] result == t.ctx || cancelled[result]
 //@   ensures [C10,C14] implies(t.ctx != nil, !cancelled[t.ctx])
-//@   modifies t.ctx, t.cancelCtx, lockmode[addr(t.mu)]
+//@   modifies t.ctx, t.cancelCtx, lockmode[addr(t.mu)], cancelled
 
 // A cleanup callback runs while its T is in the cleanup phase: the context has already been cancelled and cleared,
 // the lock is not held. It may register further cleanups (append only), fail the test case, draw, and panic.
@@ -624,7 +634,7 @@ package rapid
 //@   ensures [C05] implies(result != nil, result.traceback != "    <no error>\n")
 //@   ensures drawn >= old(drawn)
 //@   ensures [C05] streamRely(t.s)
-//@   modifies t.failed, t.cleanups, elems(t.cleanups), t.ctx, t.cancelCtx, t.cleaning.v, t.draws, drawn, lockmode[addr(t.mu)], stream(t.s), propFalsified, cleanupSkipped
+//@   modifies t.failed, t.cleanups, elems(t.cleanups), t.ctx, t.cancelCtx, t.cleaning.v, t.draws, drawn, lockmode[addr(t.mu)], stream(t.s), propFalsified, cleanupSkipped, cancelled
 
 // ---------------------------------------------------------------------------------------------
 // combinators.go: Custom
@@ -637,7 +647,7 @@ package rapid
 //@   ensures [C02] now(t).failed == ""
 //@   ensures [C10,C11] fresh(now(t)) && len(now(t).cleanups) == 0 && now(t).ctx == nil && now(t).cancelCtx == nil
 //@   panics any [C02]: true
-//@   modifies drawn, stream(t.s)
+//@   modifies drawn, stream(t.s), cancelled
 
 // ---------------------------------------------------------------------------------------------
 // statemachine.go
@@ -665,7 +675,7 @@ package rapid
 //@   ensures t.failed == old(t.failed)
 //@   ensures drawn >= old(drawn) && relyUser(t)
 //@   panics any: drawn >= old(drawn) && relyUser(t)
-//@   modifies drawn, t.failed, t.cleanups, elems(t.cleanups), t.ctx, t.cancelCtx, t.draws, stream(t.s)
+//@   modifies drawn, t.failed, t.cleanups, elems(t.cleanups), t.ctx, t.cancelCtx, t.draws, stream(t.s), onceDone, onceIn
 
 //@ func (*stateMachine).executeAction
 //@   noframe "calls user actions"
@@ -674,7 +684,7 @@ package rapid
 //@   ensures [C08] now(n) < validActionTries
 //@   ensures [C08] result == !now(invalid) && !now(skipped)
 //@   panics any [C08]: true
-//@   modifies drawn, t.failed, t.cleanups, elems(t.cleanups), t.ctx, t.cancelCtx, t.draws, lockmode[addr(t.mu)], stream(t.s)
+//@   modifies drawn, t.failed, t.cleanups, elems(t.cleanups), t.ctx, t.cancelCtx, t.draws, lockmode[addr(t.mu)], stream(t.s), onceDone, onceIn
 //@   loop 0 invariant [C08] 0 <= n && n <= validActionTries && t.failed == "" && unlocked(t) && drawn >= old(drawn)
 //@   loop 0 decreases validActionTries - n
 //   Replay discipline (C04): a skipped action is a rejected attempt. If it has consumed bits (a Draw that gave up
@@ -695,7 +705,7 @@ package rapid
 //@   requires [C08] pendingCheck
 //@   ensures [C08] t.failed == "" && unlocked(t)
 //@   panics any [C08]: true
-//@   modifies drawn, pendingCheck, t.failed, t.cleanups, elems(t.cleanups), t.ctx, t.cancelCtx, t.draws, lockmode[addr(t.mu)], stream(t.s)
+//@   modifies drawn, pendingCheck, t.failed, t.cleanups, elems(t.cleanups), t.ctx, t.cancelCtx, t.draws, lockmode[addr(t.mu)], stream(t.s), drawnAtAction, lastWord, onceDone, onceIn
 //@   at sm.check#0 assert [C08] pendingCheck && t.failed == ""
 //@   at sm.check#0 set pendingCheck = false
 //@   at repeat.more#0 assert [C08] !pendingCheck
@@ -730,7 +740,7 @@ package rapid
 //@   ensures [C07] implies(result4 != nil, result3 == lastInit) && implies(result4 == nil, result3 == 0)
 //@   ensures [C09] implies(result2, result4 == nil)
 //@   ensures [C01,C02] sawFailure == (result4 != nil)
-//@   modifies heap, drawn, runs, lastInit, sawFailure, lockmode, cancelled
+//@   modifies heap, drawn, runs, lastInit, sawFailure, lockmode, cancelled, cleanupSkipped, propFalsified
 //@   at r.init#0 assert [C07] implies(valid + invalid == 0, arg0 == old(seed))
 //@   at r.init#0 set lastInit = arg0
 //@   at checkOnce#0 set runs = runs + 1
@@ -754,7 +764,7 @@ package rapid
 //@   ensures [C06,C17] implies(ioFailed, result3 != nil)
 //@   ensures [C06] implies(result3 == nil, result0 == now(split)[0] && result1 == parseUint(now(split)[1], 10))
 //@   ensures [C06] implies(result3 == nil, forall(k, 1, len(result2)+1, result2[k-1] == parseUint(now(data)[k], 0)))
-//@   modifies ioFailed
+//@   modifies ioFailed, fsClosed
 //@   at os.Open#0 set ioFailed = result1 != nil
 //@   at scanner.Err#0 set ioFailed = ioFailed || result != nil
 //@   at strconv.ParseUint#0 set ioFailed = ioFailed || result1 != nil
@@ -770,7 +780,7 @@ package rapid
 //@   ensures [C17] tbFailed == old(tbFailed) && tbErrors == old(tbErrors)
 //@   ensures [C17] implies(result1 != nil || result2 != nil, result1 != nil && !isInvalidData(result1.data))
 //@   ensures [C17] implies(now(err) != nil || now(version) != rapidVersion, result1 == nil && result2 == nil && len(result0) == 0)
-//@   modifies heap, drawn, lockmode, cancelled
+//@   modifies heap, drawn, lockmode, cancelled, cleanupSkipped, ioFailed, propFalsified, fsClosed
 
 // saveFailFile (C16): every crash point leaves either no file under the final name or a complete one.
 // The only call that creates or changes a file under a name the discovery pattern can match is os.Rename;
@@ -798,16 +808,23 @@ package rapid
 //@   noframe "runs the property"
 //@   assumes-pre !flags.debugvis
 //@   requires [C05] prop != nil && err != nil && err.traceback != "    <no error>\n" && rec.persist && recWF(rec)
-//@   ensures [C05] result1 != nil
-//@   modifies heap, drawn, lockmode, cancelled
+//@   modifies heap, drawn, lockmode, cancelled, cleanupSkipped, cmpAt, lessAt, propFalsified
 
-// The pass loop of the shrinker is not verified yet (its passes change s.rec/s.err only through accept, whose
-// contract is proved); what IS checked is that it starts from the pruned, well-formed recording.
+// The pass loop of the shrinker: the invariant holds at every pass call (each pass is under contract, see the end of
+// this file), and what is returned is the current best recording - on the normal path together with its error, on the
+// recovered path (a candidate that did not reproduce on its second run, "flaky") together with that run's error.
 //@ func (*shrinker).shrink
-//@   trusted "pass loop not under proof yet; precondition checked at its call site"
-//@   requires [C05] shrInv(s) && forall(k, 0, len(s.rec.groups), !s.rec.groups[k].discard)
-//@   ensures result1 != nil && flags.debugvis == old(flags.debugvis)
-//@   modifies heap, drawn, lockmode, cancelled
+//@   noframe "runs the property through the passes"
+//@   nosafety "the debug statistics loop over a map is not under proof"
+//@   assumes-pre !flags.debugvis
+//@   requires [C05] s.prop != nil && s.err != nil && s.err.traceback != "    <no error>\n" && s.rec.persist
+//@   requires [C05] recWF(addr(s.rec))
+//@   requires [C05] forall(k, 0, len(s.rec.groups), !s.rec.groups[k].discard)
+//@   ensures [C01,C05] flags.debugvis == old(flags.debugvis)
+//@   ensures [C01,C05] arr(result0) == arr(s.rec.data) && off(result0) == off(s.rec.data) && len(result0) == len(s.rec.data)
+//@   modifies heap, drawn, lockmode, cancelled, cmpAt, lessAt, propFalsified, cleanupSkipped
+//@   loop 0 invariant [C01,C05] shrInv(s) && !flags.debugvis
+//@   loop 1 invariant true
 
 // ffFalsified: the replay of a fail file has falsified the property (first replay failed with a real failure);
 // from then on no fresh random test case may be generated (C09), whatever the second replay says.
@@ -823,7 +840,7 @@ package rapid
 //@   ensures [C07] implies(searched && (result6 != nil || result7 != nil), result3 == lastInit)
 //@   ensures [C09] implies(result6 == nil && result7 == nil, searched && result3 == 0 && result4 == "")
 //@   ensures [C02,C17] tbFailed == old(tbFailed) && tbErrors == old(tbErrors)
-//@   modifies heap, drawn, runs, lastInit, searched, sawFailure, lockmode, cancelled, ffFalsified
+//@   modifies heap, drawn, runs, lastInit, searched, sawFailure, lockmode, cancelled, ffFalsified, cleanupSkipped, propFalsified, runesWritten, ioFailed, fsClosed, cmpAt, lessAt
 //@   at findBug#0 assert [C17] seed == old(seed) && checks == old(checks) && !tbFailed
 //@   at checkFailFile#0 set ffFalsified = result1 != nil
 //@   at findBug#0 assert [C02,C09] !ffFalsified
@@ -845,7 +862,7 @@ package rapid
 //@   noframe "runs the property"
 //@   requires prop != nil
 //@   ensures tbFailed == old(tbFailed) && tbErrors == old(tbErrors)
-//@   modifies heap, drawn, lockmode, cancelled
+//@   modifies heap, drawn, lockmode, cancelled, cleanupSkipped, propFalsified
 
 //@ func checkTB
 //@   noframe "runs the property"
@@ -857,7 +874,7 @@ package rapid
 //@   ensures [C09] tbErrors == old(tbErrors)
 //@   panics goexit [C02,C06,C09,C16]: tbFailed && tbErrors == old(tbErrors) + 1 && fsRenames <= old(fsRenames) + 1
 //@   ensures [C06,C16] fsRenames <= old(fsRenames) + 1
-//@   modifies heap, drawn, runs, lastInit, searched, sawFailure, lockmode, cancelled, tbFailed, tbErrors, fsWritten, fsClosed, fsRenamed, fsTmpName, fsTmpDir, fsRenamedAtCreate, fsRenames, runesWritten, capturedOut
+//@   modifies heap, drawn, runs, lastInit, searched, sawFailure, lockmode, cancelled, tbFailed, tbErrors, fsWritten, fsClosed, fsRenamed, fsTmpName, fsTmpDir, fsRenamedAtCreate, fsRenames, runesWritten, capturedOut, cleanupSkipped, ffFalsified, propFalsified, ioFailed, cmpAt, lessAt
 //@   at captureTestOutput#0 set capturedOut = arr(result)
 //@   at saveFailFile#0 assert [C06,C16] fsRenames == old(fsRenames) && arr(arg2) == capturedOut
 //@   at saveFailFile#0 assert [C06] arg3 == seed && arr(arg4) == arr(buf) && len(arg4) == len(buf) && arg1 == rapidVersion
@@ -879,7 +896,7 @@ package rapid
 //@   requires [C13] prop != nil
 //@   ensures [C13] now(err) == nil && tbFailed == old(tbFailed)
 //@   panics goexit [C13]: true
-//@   modifies heap, drawn, lockmode, cancelled, tbFailed, tbSkipped
+//@   modifies heap, drawn, lockmode, cancelled, tbFailed, tbSkipped, cleanupSkipped, propFalsified
 //@   at newBufBitStream#0 assert [C13] !arg1 && len(arg0) == (old(len(input)) + 7) / 8
 //@   at newBufBitStream#0 assert [C13] forall(j, 0, len(arg0), arg0[j] == fuzzWords[j])
 //@   at binary.LittleEndian.Uint64#0 ensure [C13] trig(len(buf)) || !trig(len(buf))
@@ -990,6 +1007,7 @@ package rapid
 //@   ensures [C04,C05] len(rec.data) == old(len(rec.data)) - (old(rec.groups[i].end) - old(rec.groups[i].begin)) && len(rec.data) <= old(len(rec.data))
 //@   ensures [C04,C05] implies(len(rec.data) == old(len(rec.data)), forall(k, 0, len(rec.data), rec.data[k] == old(rec.data[k])))
 //@   ensures [C04,C05] len(rec.groups) < old(len(rec.groups)) && rec.persist == old(rec.persist)
+//@   ensures [C01,C04,C05] arr(rec.groups) == old(arr(rec.groups)) && arr(rec.data) == old(arr(rec.data))
 //@   ensures [assumed] recWF(rec)
 //@   ensures [C04,C05] forall(k, 0, i, rec.groups[k].discard == old(rec.groups[k].discard))
 //@   ensures [C01,C04,C05] forall(k, 0, old(rec.groups[i].begin), rec.data[k] == old(rec.data[k]))
@@ -1006,8 +1024,10 @@ package rapid
 //@   requires [C04,C05] rec.persist && recWF(rec)
 //@   ensures [C04,C05] len(rec.data) <= old(len(rec.data)) && implies(len(rec.data) == old(len(rec.data)), forall(k, 0, len(rec.data), rec.data[k] == old(rec.data[k])))
 //@   ensures [C04,C05] recWF(rec) && rec.persist && forall(k, 0, len(rec.groups), !rec.groups[k].discard)
+//@   ensures [C01,C04,C05] arr(rec.groups) == old(arr(rec.groups)) && arr(rec.data) == old(arr(rec.data))
 //@   modifies rec.data, rec.groups, elems(rec.data), elems(rec.groups)
 //@   loop 0 invariant [C04,C05] forall(k, 0, i, !rec.groups[k].discard)
+//@   loop 0 invariant [C01,C04,C05] arr(rec.groups) == old(arr(rec.groups)) && arr(rec.data) == old(arr(rec.data))
 //@   loop 0 invariant [C04,C05] 0 <= i && recWF(rec) && rec.persist && len(rec.data) <= old(len(rec.data)) && implies(len(rec.data) == old(len(rec.data)), forall(k, 0, len(rec.data), rec.data[k] == old(rec.data[k])))
 //@   loop 0 decreases len(rec.groups) - i
 //@   loop 1 invariant [C04,C05] -1 <= rangeindex && rangeindex < len(rec.groups) && recWF(rec) && forall(k, 0, len(rec.groups), !rec.groups[k].discard)
@@ -1035,14 +1055,17 @@ package rapid
 //@   at dataStr#0 assert [C05,C12] arr(arg0) == arr(buf) && off(arg0) == off(buf) && len(arg0) == len(buf)
 //@   assumes-pre !flags.debugvis
 //@   requires [C01,C05] shrInv(s)
+//@   requires [C01,C05] arr(buf) == nil || arr(buf) != arr(s.rec.data)
 //@   ensures [C01,C05] s.prop != nil && s.err != nil && s.err.traceback != "    <no error>\n" && s.rec.persist && recWF(addr(s.rec))
 //@   ensures [C05] implies(!result, s.err == old(s.err) && arr(s.rec.data) == old(arr(s.rec.data)) && off(s.rec.data) == old(off(s.rec.data)) && len(s.rec.data) == old(len(s.rec.data)) && s.shrinks == old(s.shrinks))
 //@   ensures [C01] implies(result, s.err == now(err1) && now(err1) != nil)
 //@   ensures [C05] implies(result, tbOf(s.err) == tbOf(old(s.err)) && s.shrinks == old(s.shrinks) + 1)
 //@   ensures [C05] implies(result, old(lessData(buf, s.rec.data)))
 //@   ensures [C05] implies(result, len(s.rec.data) <= len(buf))
-//@   panics testError [C01]: refOf(panicval) == now(err2)
-//@   modifies heap, drawn, lockmode, cancelled, cmpAt, lessAt
+//@   panics testError [C01]: flags.debugvis == old(flags.debugvis) && refOf(panicval) == now(err2)
+//@   ensures [C01,C05] flags.debugvis == old(flags.debugvis)
+//@   ensures [C01,C05] arr(s.rec.groups) == old(arr(s.rec.groups)) || fresh(arr(s.rec.groups)) || arr(s.rec.groups) == nil
+//@   modifies heap, drawn, lockmode, cancelled, cmpAt, lessAt, cleanupSkipped, propFalsified
 
 // ---------------------------------------------------------------------------------------------
 // Reachability (C18, C12): witnessed scenarios. For every max and every v <= max outside the known hole there
@@ -1059,7 +1082,7 @@ package rapid
 //@   requires [C12,C18] v <= max && !inHole(v, max)
 //@   ensures [C12,C18] result0 == v
 //@   panics invalidData: true
-//@   modifies drawn
+//@   modifies drawn, lastWord
 //@   at genGeom#0 witness [C12,C18] uint64(witnessN(v)) - 1
 //@   at s.drawBits#0 witness [C12,C18] v
 
@@ -1068,14 +1091,14 @@ package rapid
 //@   requires [C18] v <= max && inHole(v, max)
 //@   ensures [C18] result0 != v
 //@   panics invalidData: true
-//@   modifies drawn
+//@   modifies drawn, lastWord
 
 //@ func genUintNBiased@reachall
 //@   given v (_ BitVec 64)
 //@   requires [C12,C18] v <= max
 //@   ensures [C12,C18] result0 == v
 //@   panics invalidData: true
-//@   modifies drawn
+//@   modifies drawn, lastWord
 //@   at genGeom#0 witness [C12,C18] uint64(witnessN(v)) - 1
 //@   at s.drawBits#0 witness [C12,C18] v
 
@@ -1107,7 +1130,7 @@ package rapid
 //@   noframe "runs the deferred generator"
 //@   ensures [C15] true
 //@   panics any: true
-//@   modifies drawn, t.failed, t.cleanups, elems(t.cleanups), t.ctx, t.cancelCtx, t.draws, stream(t.s)
+//@   modifies drawn, t.failed, t.cleanups, elems(t.cleanups), t.ctx, t.cancelCtx, t.draws, stream(t.s), onceDone, onceIn
 
 //@ callback func() *Generator[V]
 //@   params fn
@@ -1147,7 +1170,7 @@ package rapid
 //@   nosafety "reflection calls are abstracted"
 //@   ensures [C04] true
 //@   panics any: true
-//@   modifies heap, drawn, lastWord, rejectedAttempt, stream(t.s)
+//@   modifies heap, drawn, lastWord, rejectedAttempt, stream(t.s), onceDone, onceIn
 //@   at repeat.more#0 set rejectedAttempt = false
 //@   at repeat.reject#0 set rejectedAttempt = true
 //@   at m.SetMapIndex#0 assert [C04] !rejectedAttempt
@@ -1195,7 +1218,7 @@ package rapid
 //@   ensures [C10] len(t.cleanups) == 0 && t.ctx == nil && t.cancelCtx == nil && !cleaning(t) && unlocked(t)
 //@   ensures [C10] 1 <= result1 && result1 <= exampleMaxTries
 //@   panics any [C10]: len(t.cleanups) == 0 && t.ctx == nil && t.cancelCtx == nil && !cleaning(t) && unlocked(t)
-//@   modifies drawn, t.failed, t.cleanups, elems(t.cleanups), t.ctx, t.cancelCtx, t.cleaning.v, t.draws, cancelled, lockmode[addr(t.mu)], stream(t.s)
+//@   modifies drawn, t.failed, t.cleanups, elems(t.cleanups), t.ctx, t.cancelCtx, t.cleaning.v, t.draws, cancelled, lockmode[addr(t.mu)], stream(t.s), onceDone, onceIn
 //@   loop 0 invariant [C10] 1 <= i && i <= exampleMaxTries && unlocked(t) && ctxInv(t) && !cleaning(t)
 
 //@ func (*Generator).Example
@@ -1205,7 +1228,7 @@ package rapid
 //@   at example#0 assert [C10] clean(arg1) && unlocked(arg1) && fresh(arg1)
 //@   at example#0 assert [C04,C07] hasType(arg1.s, randomBitStream) && !deref(arg1.s, randomBitStream).persist
 //@   at newRandomBitStream#0 assert [C04,C07] implies(len(seed) > 0, arg0 == seed[0]) && !arg1
-//@   modifies heap, drawn, lockmode, cancelled
+//@   modifies heap, drawn, lockmode, cancelled, onceDone, onceIn
 
 // ---------------------------------------------------------------------------------------------
 // make.go: the kind switch of Make (C03: "the requested dynamic type for Make"). dynKind(g) is the reflect.Kind of
@@ -1235,3 +1258,85 @@ package rapid
 //@   trusted "reflection-based constructor of a composite generator: outside the modelled subset"
 //@ func Deferred
 //@   trusted "constructor: allocates a deferredGen around fn"
+
+// ---------------------------------------------------------------------------------------------
+// The shrink passes (C01, C05). accept is the gate: whatever candidate a pass builds, it becomes the current best only
+// if it reproduces the failure and is shortlex-smaller. What the passes themselves owe is (a) the shrinker invariant
+// at every accept call and on exit, and (b) that a candidate never shares storage with the current best - a pass that
+// edited s.rec.data in place would change the current best without running the property. The index arithmetic of
+// the passes is not under proof (nosafety): a wrong index there panics, it cannot make a wrong result accepted.
+//@ func without
+//@   nosafety "group positions within the data are the callers' business (recWF)"
+//@   ensures [C01,C05] arr(result) == nil || fresh(arr(result))
+//@   loop 0 invariant [C01,C05] arr(buf) == nil || fresh(arr(buf))
+
+//@ func (*shrinker).removeGroups
+//@   noframe "runs the property through accept"
+//@   nosafety "index arithmetic of the pass is not under proof"
+//@   assumes-pre !flags.debugvis
+//@   requires [C01,C05] shrInv(s)
+//@   ensures [C01,C05] shrInv(s) && flags.debugvis == old(flags.debugvis)
+//@   panics testError [C01,C05]: flags.debugvis == old(flags.debugvis)
+//@   modifies heap, drawn, lockmode, cancelled, cmpAt, lessAt, propFalsified, cleanupSkipped
+//@   loop 0 invariant [C01,C05] shrInv(s) && flags.debugvis == old(flags.debugvis)
+
+//@ func (*shrinker).lowerFloatHack
+//@   noframe "runs the property through accept"
+//@   nosafety "index arithmetic of the pass is not under proof"
+//@   assumes-pre !flags.debugvis
+//@   requires [C01,C05] shrInv(s)
+//@   ensures [C01,C05] shrInv(s) && flags.debugvis == old(flags.debugvis)
+//@   panics testError [C01,C05]: flags.debugvis == old(flags.debugvis)
+//@   modifies heap, drawn, lockmode, cancelled, cmpAt, lessAt, propFalsified, cleanupSkipped
+//@   loop 0 invariant [C01,C05] shrInv(s) && flags.debugvis == old(flags.debugvis)
+
+//@ func (*shrinker).removeGroupsAndLower
+//@   noframe "runs the property through accept"
+//@   nosafety "index arithmetic of the pass is not under proof"
+//@   assumes-pre !flags.debugvis
+//@   requires [C01,C05] shrInv(s)
+//@   ensures [C01,C05] shrInv(s) && flags.debugvis == old(flags.debugvis)
+//@   panics testError [C01,C05]: flags.debugvis == old(flags.debugvis)
+//@   modifies heap, drawn, lockmode, cancelled, cmpAt, lessAt, propFalsified, cleanupSkipped
+//@   loop 0 invariant [C01,C05] shrInv(s) && flags.debugvis == old(flags.debugvis)
+//@   loop 1 invariant [C01,C05] shrInv(s) && flags.debugvis == old(flags.debugvis)
+
+//@ func (*shrinker).sortGroups
+//@   noframe "runs the property through accept"
+//@   nosafety "index arithmetic of the pass is not under proof"
+//@   assumes-pre !flags.debugvis
+//@   requires [C01,C05] shrInv(s)
+//@   ensures [C01,C05] shrInv(s) && flags.debugvis == old(flags.debugvis)
+//@   panics testError [C01,C05]: flags.debugvis == old(flags.debugvis)
+//@   modifies heap, drawn, lockmode, cancelled, cmpAt, lessAt, propFalsified, cleanupSkipped
+//@   loop 0 invariant [C01,C05] shrInv(s) && flags.debugvis == old(flags.debugvis)
+//@   loop 1 invariant [C01,C05] shrInv(s) && flags.debugvis == old(flags.debugvis)
+//@   loop 2 invariant [C01,C05] shrInv(s) && flags.debugvis == old(flags.debugvis)
+
+//@ func (*shrinker).removeGroupSpans
+//@   noframe "runs the property through accept"
+//@   nosafety "index arithmetic of the pass is not under proof"
+//@   assumes-pre !flags.debugvis
+//@   requires [C01,C05] shrInv(s)
+//@   ensures [C01,C05] shrInv(s) && flags.debugvis == old(flags.debugvis)
+//@   panics testError [C01,C05]: flags.debugvis == old(flags.debugvis)
+//@   modifies heap, drawn, lockmode, cancelled, cmpAt, lessAt, propFalsified, cleanupSkipped
+//@   loop 0 invariant [C01,C05] shrInv(s) && flags.debugvis == old(flags.debugvis)
+//@   loop 1 invariant [C01,C05] shrInv(s) && flags.debugvis == old(flags.debugvis) && fresh(arr(groups)) && arr(groups) != arr(s.rec.groups)
+
+// The condition callback that minimizeBlocks hands to minimize: it builds the candidate as a fresh copy.
+//@ func (*shrinker).minimizeBlocks$1
+//@   noframe "runs the property through accept"
+//@   nosafety "index arithmetic of the pass is not under proof"
+//@   assumes-pre !flags.debugvis
+//@   requires [C01,C05] shrInv(s)
+//@   ensures [C01,C05] shrInv(old(s)) && flags.debugvis == old(flags.debugvis)
+//@   panics testError [C01,C05]: flags.debugvis == old(flags.debugvis)
+//@   modifies heap, drawn, lockmode, cancelled, cmpAt, lessAt, propFalsified, cleanupSkipped
+
+//@ func (*shrinker).minimizeBlocks
+//@   trusted "follows from the contract of its function literal (proved above: the candidate is a fresh copy, the invariant is kept) and from minimize calling nothing but that literal"
+//@   requires [C01,C05] shrInv(s)
+//@   ensures [C01,C05] shrInv(s) && flags.debugvis == old(flags.debugvis)
+//@   panics testError [C01,C05]: flags.debugvis == old(flags.debugvis)
+//@   modifies heap, drawn, lockmode, cancelled, cmpAt, lessAt, propFalsified, cleanupSkipped
